@@ -842,8 +842,120 @@ fn c10_open_reader_makes_compaction_drop_history(dir: PathBuf) -> ScenFut<'stati
     })
 }
 
+async fn fresh_get(t: &Tree, k: &[u8]) -> Result<Option<Vec<u8>>, String> {
+    let tx = t.begin_with_mode(Mode::ReadOnly).map_err(|e| e.to_string())?;
+    tx.get(k).map_err(|e| e.to_string())
+}
+
+fn c14_stale_block_cache_after_restore(dir: PathBuf) -> ScenFut<'static> {
+    Box::pin(async move {
+        let cfg = Cfg { cache: 1 << 20, level_count: 3, l0_max_files: 4, max_bytes_for_level: 1 << 20, ..base_cfg() };
+        let t = cfg.open(&dir).map_err(|e| e.to_string())?;
+        let ck = dir.with_extension("ckpt");
+        let _ = std::fs::remove_dir_all(&ck);
+        put(&t, &[(b"base", b"0")]).await?;
+        t.create_checkpoint(&ck).map_err(|e| e.to_string())?;
+        // discarded timeline: a table is written and read (its blocks enter the cache)
+        put(&t, &[(b"x", b"discarded")]).await?;
+        t.verif_flush().map_err(|e| e.to_string())?;
+        let _ = fresh_get(&t, b"x").await?;
+        t.restore_from_checkpoint(&ck).map_err(|e| e.to_string())?;
+        // new timeline: the next table reuses the table id of the discarded one
+        put(&t, &[(b"y", b"kept")]).await?;
+        t.verif_flush().map_err(|e| e.to_string())?;
+        let gy = fresh_get(&t, b"y").await?;
+        let gx = fresh_get(&t, b"x").await?;
+        close(t).await;
+        let _ = std::fs::remove_dir_all(&ck);
+        if gy.as_deref() != Some(&b"kept"[..]) || gx.is_some() {
+            return Err(format!(
+                "after restore, commit y + flush (the new table reuses the id of a table of the discarded timeline whose blocks are cached): get(y) = {:?} (expected kept), get(x) = {:?} (expected None)",
+                gy.map(|v| String::from_utf8_lossy(&v).to_string()),
+                gx.map(|v| String::from_utf8_lossy(&v).to_string())
+            ));
+        }
+        Ok(())
+    })
+}
+
+fn c14_vlog_writer_after_restore(dir: PathBuf) -> ScenFut<'static> {
+    Box::pin(async move {
+        let cfg = Cfg { vlog: true, vlog_threshold: 0, vlog_max_file: 1 << 20, cache: 0, ..base_cfg() };
+        let t = cfg.open(&dir).map_err(|e| e.to_string())?;
+        let ck = dir.with_extension("ckpt");
+        let _ = std::fs::remove_dir_all(&ck);
+        put(&t, &[(b"base", b"0000000000")]).await?;
+        t.create_checkpoint(&ck).map_err(|e| e.to_string())?;
+        t.restore_from_checkpoint(&ck).map_err(|e| e.to_string())?;
+        put(&t, &[(b"after", b"written-after-restore")]).await?;
+        t.verif_flush().map_err(|e| e.to_string())?;
+        let live = fresh_get(&t, b"after").await;
+        close(t).await;
+        let t = cfg.open(&dir).map_err(|e| format!("reopen failed: {e}"))?;
+        let after = fresh_get(&t, b"after").await;
+        close(t).await;
+        let _ = std::fs::remove_dir_all(&ck);
+        match (live, after) {
+            (Ok(Some(a)), Ok(Some(b))) if a == b"written-after-restore" && b == a => Ok(()),
+            (l, a) => Err(format!(
+                "value written after a restore (value log on) and flushed: live read = {:?}, read after reopen = {:?} (the value-log writer kept appending to the file that restore had replaced)",
+                l.map(|v| v.map(|x| x.len())),
+                a.map(|v| v.map(|x| x.len()))
+            )),
+        }
+    })
+}
+
+fn c14_version_index_not_restored(dir: PathBuf) -> ScenFut<'static> {
+    Box::pin(async move {
+        let cfg = ver_cfg(true);
+        let t = cfg.open(&dir).map_err(|e| e.to_string())?;
+        let ck = dir.with_extension("ckpt");
+        let _ = std::fs::remove_dir_all(&ck);
+        set_at(&t, b"k", b"v1", 10).await?;
+        t.create_checkpoint(&ck).map_err(|e| e.to_string())?;
+        set_at(&t, b"k", b"discarded", 20).await?;
+        t.verif_flush().map_err(|e| e.to_string())?; // the version index learns about the discarded version
+        t.restore_from_checkpoint(&ck).map_err(|e| e.to_string())?;
+        // the discarded version carried sequence number 2; let the new timeline reach it
+        set_at(&t, b"other", b"o", 30).await?;
+        set_at(&t, b"other2", b"o", 31).await?;
+        let g = get_at(&t, b"k", 25).await?;
+        let hist = hist_list(&t, b"a", b"z", false, true, None)?;
+        close(t).await;
+        let _ = std::fs::remove_dir_all(&ck);
+        let hist: Vec<_> = hist.into_iter().filter(|(k, _)| k == b"k").collect();
+        if g.as_deref() != Some(&b"v1"[..]) || hist.len() != 1 {
+            return Err(format!(
+                "version index on: after restore to a checkpoint taken before `k@20`, get_at(k, 25) = {:?} and history lists timestamps {:?} (the version index is neither checkpointed nor rewound)",
+                g.map(|v| String::from_utf8_lossy(&v).to_string()),
+                hist.iter().map(|(_, ts)| *ts).collect::<Vec<_>>()
+            ));
+        }
+        Ok(())
+    })
+}
+
 pub fn all() -> Vec<Scenario> {
     vec![
+        Scenario {
+            id: "C14-stale-block-cache-after-restore",
+            property: "C14",
+            title: "restore, then a new table reuses the id of a cached table of the discarded timeline",
+            run: c14_stale_block_cache_after_restore,
+        },
+        Scenario {
+            id: "C14-vlog-writer-after-restore",
+            property: "C14",
+            title: "value written after restore with the value log on, then reopen",
+            run: c14_vlog_writer_after_restore,
+        },
+        Scenario {
+            id: "C14-version-index-not-restored",
+            property: "C14",
+            title: "restore with the version index enabled",
+            run: c14_version_index_not_restored,
+        },
         Scenario {
             id: "C10-open-reader-makes-compaction-drop-history",
             property: "C10",
